@@ -30,6 +30,10 @@ pub struct Case {
     pub acts: Vec<Act>,
     /// lossless alternating cycles appended at the end (freshness clause); 0 = none
     pub lossless_cycles: u32,
+    /// how the connection came about: 0 = `initiator` dials; 1 = both ends dial at the same moment (crossing pings,
+    /// the tie-break makes one of them the responder); 2 = crossing pings, but the loser's ping is delivered first
+    #[serde(default)]
+    pub start: u8,
 }
 
 pub struct Outcome {
@@ -58,11 +62,33 @@ pub fn run_case(ctx: &Ctx, c: &Case) -> Outcome {
     let r = catch(|| {
         let mut sim = PairSim::simple(Some(c.orientation));
         let ini = (c.initiator % 2) as usize;
-        // handshake; the responder's first rotation message stays in flight
-        sim.init(ini);
-        sim.deliver(0); // ping
-        sim.deliver(0); // pong
-        sim.deliver(0); // peng -> responder completes and emits rotation message 1
+        if c.start % 3 == 0 {
+            // handshake; the responder's first rotation message stays in flight
+            sim.init(ini);
+            sim.deliver(0); // ping
+            sim.deliver(0); // pong
+            sim.deliver(0); // peng -> responder completes and emits rotation message 1
+        } else {
+            // simultaneous open: both pings are on the wire before either arrives
+            sim.init(0);
+            sim.init(1);
+            if c.start % 3 == 2 {
+                sim.inflight.swap(0, 1);
+            }
+            sim.deliver(0);
+            sim.deliver(0);
+            for _ in 0..6 {
+                if sim.both_ready() {
+                    break;
+                }
+                if sim.inflight.is_empty() {
+                    sim.tick(0);
+                    sim.tick(1);
+                } else {
+                    sim.deliver(0);
+                }
+            }
+        }
         if !sim.both_ready() {
             viols.push(Viol::new("setup-handshake-failed", "plain handshake did not complete".to_string(), cj(c)));
             return;
@@ -241,7 +267,7 @@ pub fn run(ctx: &Ctx) {
     let total = std::sync::atomic::AtomicU64::new(0);
     // depth-1 nodes and deliveries at depth 2 are covered by the random part; the DFS starts from 2-step prefixes
     ctx.par_items(&tasks, |_, (ini, p)| {
-        let base = Case { orientation: *ini == 0, initiator: *ini, acts: vec![], lossless_cycles: 0 };
+        let base = Case { orientation: *ini == 0, initiator: *ini, acts: vec![], lossless_cycles: 0, start: 0 };
         let mut prefix = p.clone();
         let mut count = 0;
         explore(ctx, &base, &mut prefix, depth, &mut count);
@@ -249,13 +275,44 @@ pub fn run(ctx: &Ctx) {
     });
     ctx.subspace(&format!("all canonical rotation schedules up to depth {} below 20 two-step prefixes", depth), total.load(std::sync::atomic::Ordering::Relaxed), true);
 
+    // connections that came about by a simultaneous open (either tie-break outcome, either arrival order): short
+    // schedules exhaustively, each followed by the lossless stretch of the freshness clause
+    {
+        let mut cases = vec![];
+        let alpha = [Act::CycleA, Act::CycleB, Act::Deliver(0), Act::Drop(0), Act::Dup(0), Act::TicksA(60), Act::TicksB(60)];
+        let depth = ctx.tier.pick(3u32, 4);
+        let total = (alpha.len() as u64).pow(depth);
+        for orientation in [false, true] {
+            for start in [1u8, 2] {
+                for mut i in 0..total {
+                    let mut acts = vec![];
+                    for _ in 0..depth {
+                        acts.push(alpha[(i % alpha.len() as u64) as usize]);
+                        i /= alpha.len() as u64;
+                    }
+                    cases.push(Case { orientation, initiator: 0, acts, lossless_cycles: 8, start });
+                }
+            }
+        }
+        let nc = cases.len() as u64;
+        ctx.par_items(&cases, |_, c| {
+            let o = run_case(ctx, c);
+            if o.key_changes[0] + o.key_changes[1] >= 2 {
+                ctx.nontrivial(&("dual", c.orientation, c.start, &c.acts));
+            }
+            ctx.class("schedule:after-simultaneous-open");
+            ctx.report(o.viols);
+        });
+        ctx.subspace(&format!("after a simultaneous open (2 tie-break outcomes x 2 arrival orders): all schedules of length {} over 7 actions + 8 lossless cycles (freshness)", depth), nc, true);
+    }
+
     let n: u32 = ctx.tier.pick(1_200, 12_000);
     ctx.proptest(
         "pt-rotation",
         n,
-        || (any::<bool>(), 0u8..2, proptest::collection::vec(act_strategy(), 0..260)),
-        |(o, ini, acts)| {
-            let c = Case { orientation: *o, initiator: *ini, acts: acts.clone(), lossless_cycles: 12 };
+        || (any::<bool>(), 0u8..2, proptest::collection::vec(act_strategy(), 0..260), prop_oneof![2 => Just(0u8), 1 => Just(1u8), 1 => Just(2u8)]),
+        |(o, ini, acts, start)| {
+            let c = Case { orientation: *o, initiator: *ini, acts: acts.clone(), lossless_cycles: 12, start: *start };
             let out = run_case(ctx, &c);
             if out.lost_or_dup && out.key_changes[0] + out.key_changes[1] >= 2 {
                 ctx.nontrivial(&(o, ini, acts));
